@@ -180,9 +180,30 @@ fn c05_batches(tier: &str) -> Vec<Batch> {
     p.policy.can_start = [60, 20, 20];
     p.installer.app_result = [70, 10, 20];
     p.drop_stream_permille = 0;
+    // a second lifetime after a reboot into the installed version: nothing may be sent at start-up
+    // before the policy allowed a check
+    p.max_lifetimes = 2;
+    p.installer.reboot = [60, 20, 20];
     vec![Batch { name: "c05-main".into(), profile: p, runs: scale(tier, 15_000, 300_000), exec: exec_c05, strata: None }]
 }
 fn c11_batches(tier: &str) -> Vec<Batch> {
+    // a policy under which the waiting machine is never idle: the next check time is always
+    // "now", the timer for it is ready at once, and every check is refused.  A request must
+    // still be read and answered within a few rounds of that loop.
+    let mut busy = c11_profile();
+    busy.name = "c11-busy".into();
+    busy.next_delays_s = vec![0];
+    busy.policy.min_wait_permille = 0;
+    busy.policy.check = [0, 0, 50, 50, 0];
+    busy.lateness = [1, 0, 0, 0];
+    busy.timer_immediate_permille = 1000;
+    busy.clients_max = 2;
+    busy.requests_max = 3;
+    busy.max_steps = 4000;
+    busy.neighbour_permille = 0;
+    busy.drop_handles_permille = 0;
+    busy.drop_stream_permille = 0;
+    busy.abandon_request_permille = 0;
     let mut wake = c11_profile();
     wake.name = "c11-wake".into();
     wake.next_delays_s = vec![36000, 72000];
@@ -198,12 +219,14 @@ fn c11_batches(tier: &str) -> Vec<Batch> {
     wake.max_checks = 2;
     vec![
         Batch { name: "c11-main".into(), profile: c11_profile(), runs: scale(tier, 15_000, 300_000), exec: exec_c11, strata: None },
+        Batch { name: "c11-busy".into(), profile: busy, runs: scale(tier, 4_000, 80_000), exec: exec_c11, strata: None },
         Batch { name: "c11-wake".into(), profile: wake, runs: scale(tier, 5_000, 100_000), exec: exec_c11, strata: None },
     ]
 }
 fn c12_batches(tier: &str) -> Vec<Batch> {
     let mut p = c11_profile();
     p.name = "c12".into();
+    p.net.retry_after = 150;
     p.policy.min_wait_permille = 600;
     p.lateness = [3, 3, 2, 2];
     p.policy.check = [60, 5, 15, 10, 10];
@@ -597,6 +620,11 @@ fn c10_batches(tier: &str) -> Vec<Batch> {
     p.installer.app_result = [50, 25, 25];
     p.policy.can_start = [60, 20, 20];
     p.bad_url_permille = 0;
+    // the embedder changes the shared app set (channel hint and version of its first app), also
+    // while an install is under way: the reports of that check speak of the app as the check found it
+    p.neighbour_permille = 400;
+    p.neighbour_mutates_permille = 800;
+    p.neighbour_bumps_version = true;
     vec![Batch { name: "c10-main".into(), profile: p, runs: scale(tier, 20_000, 400_000), exec: exec_c10, strata: None }]
 }
 
@@ -615,6 +643,7 @@ fn c13_batches(tier: &str) -> Vec<Batch> {
     p.installer.max_progress = 6;
     p.installer.cancel_progress_permille = 150;
     p.installer.concurrent_progress_permille = 150;
+    p.installer.step_nowait_permille = 400;
     p.observer_reads_storage_permille = 150;
     p.disk.slow = 150;
     p.net.retry_after = 250;
@@ -826,6 +855,8 @@ pub fn c07_profile() -> Profile {
     p.policy.reboot_allowed_permille = 200;
     p.next_delays_s = vec![0, 1, 60, 3600];
     p.disk.slow = 150;
+    // another task of the embedder holds the shared storage for a while
+    p.neighbour_permille = 350;
     p
 }
 
